@@ -461,3 +461,99 @@ def empty_row_rule(ctx, tk, rule):
                 else:
                     ctx.unknown(rule, m, what, "row length in [%s, %s] for %s" % (lo, hi, key), key=key, engine="E9")
     return n_dec
+
+
+def col_slice_model(ctx, tk, rule, Ns=(1, 2, 3)):
+    """E9 for short rows: for row lengths N = 1..3 the selector space (start, stop, step) is partitioned at the
+    landmarks where Python's slice semantics can change (every integer in [-N-1, N+1] is its own cell, the two tails
+    beyond are one cell each; steps +-1..+-N are cells, larger magnitudes one symbolic cell per sign).  On every cell
+    RaggedView2.col_slice is interpreted abstractly; the (first column, length, step) it returns must be the triple
+    Python's own slice arithmetic - slice(...).indices(N), evaluated on representatives of the cell, never on /repo
+    code - gives.  A cell on which Python's answer is not constant is skipped (counted as unknown)."""
+    from .absint import Interp, Iv, NONE, SliceV, Obj, INF
+    cls = ctx.program.cls("raggedshape.RaggedView2")
+    m = cls.lookup("col_slice")
+    what = "for rows of %d cell(s) a column slice selects the cells Python's slice arithmetic selects (first column, count, stride)"
+    totals = {"holds": 0, "violated": 0, "unknown": 0}
+    for N in Ns:
+        bcells = [("None", NONE, [None])]
+        for v in range(-N - 1, N + 2):
+            bcells.append((str(v), Iv(v, v), [v]))
+        bcells.append(("<=%d" % (-N - 2), Iv(-INF, -N - 2), [-N - 2, -N - 7, -10 ** 9]))
+        bcells.append((">=%d" % (N + 2), Iv(N + 2, INF), [N + 2, N + 7, 10 ** 9]))
+        scells = [("None", NONE, None, [None])]
+        for v in list(range(-N, 0)) + list(range(1, N + 1)):
+            scells.append((str(v), Iv(v, v), None, [v]))
+        scells.append(("<=%d" % (-N - 1), Iv(0, 0, 1), (-INF, -N - 1), [-N - 1, -N - 4, -10 ** 9]))
+        scells.append((">=%d" % (N + 1), Iv(0, 0, 1), (N + 1, INF), [N + 1, N + 4, 10 ** 9]))
+        bad = []
+        unk = 0
+        ok = 0
+        for sn, sv, srange, sreps in scells:
+            for an, av, areps in bcells:
+                for bn, bv, breps in bcells:
+                    # Python's answer on the representatives of the cell
+                    exp = set()
+                    for a in areps:
+                        for b in breps:
+                            for st in sreps:
+                                r = range(*slice(a, b, st).indices(N))
+                                exp.add((len(r), r[0] if len(r) else None, r.step))
+                    if len({e[0] for e in exp}) != 1 or len({e[1] for e in exp}) != 1:
+                        unk += 1
+                        continue
+                    elen, efirst = next(iter(exp))[0], next(iter(exp))[1]
+                    I = Interp(ctx, cls, {"lengths": Iv(N, N), "starts": Iv(0, 0), "col_step": Iv(1, 1)}, sym_range=srange)
+                    try:
+                        res = I.run(m, [SliceV(av, bv, sv)], {})
+                    except RecursionError:
+                        res = None
+                    if not isinstance(res, Obj) or len(res.args) < 2:
+                        unk += 1
+                        continue
+                    ln = I.num(res.args[1]) if isinstance(res.args[1], Iv) else None
+                    fs = I.num(res.args[0]) if isinstance(res.args[0], Iv) else None
+                    verdict = None
+                    detail = ""
+                    if ln is not None:
+                        if ln[0] == ln[1] == elen:
+                            verdict = True
+                        elif ln[0] > elen or ln[1] < elen:
+                            verdict = False
+                            detail = "selects %s cell(s), Python selects %d" % ("%d" % ln[0] if ln[0] == ln[1] else "between %s and %s" % ln, elen)
+                    if verdict is True and elen > 0:
+                        if fs is None:
+                            verdict = None
+                        elif fs[0] == fs[1] == efirst:
+                            verdict = True
+                        elif fs[0] > efirst or fs[1] < efirst:
+                            verdict = False
+                            detail = "starts at column %s, Python starts at column %d" % ("%d" % fs[0] if fs[0] == fs[1] else "in [%s, %s]" % fs, efirst)
+                        else:
+                            verdict = None
+                    if verdict is True and elen > 1 and len(res.args) > 2:
+                        # stride: col_step * step with col_step == 1
+                        stv = I.num(res.args[2]) if isinstance(res.args[2], Iv) else None
+                        steps = {e[2] for e in exp}
+                        if stv is not None and len(steps) == 1:
+                            est = next(iter(steps))
+                            if stv[0] > est or stv[1] < est:
+                                verdict = False
+                                detail = "stride %s, Python's stride %d" % (stv, est)
+                    if verdict is True:
+                        ok += 1
+                    elif verdict is False:
+                        bad.append(("start=%s,stop=%s,step=%s" % (an, bn, sn), detail))
+                    else:
+                        unk += 1
+        totals["holds"] += ok
+        totals["unknown"] += unk
+        totals["violated"] += len(bad)
+        if bad:
+            for key, detail in bad[:6]:
+                ctx.violated(rule, m, what % N, "slice %s on a row of %d cell(s): col_slice %s (%d cells of the selector partition disagree, %d agree)" % (
+                    key, N, detail, len(bad), ok), key="model:N=%d:%s" % (N, key), engine="E9")
+        else:
+            ctx.decide(rule, m, what % N, True if ok else None, key="model:N=%d" % N, engine="E9",
+                       detail_ok="%d cells of the selector partition agree, %d undecided" % (ok, unk))
+    return totals
